@@ -76,24 +76,40 @@ func (u *Universe) sdl() string {
 	return b.String()
 }
 
-func (u *Universe) selText(sel string) string {
+// selText renders a selection: the body of the subscription field and the fragment definitions it needs.
+func (u *Universe) selText(sel string) (string, string) {
 	var parts []string
+	frags := ""
 	for _, kf := range u.SelKeys[sel] {
 		p := kf[1]
 		if kf[0] != kf[1] {
 			p = kf[0] + ": " + kf[1]
 		}
+		dir := ""
 		if len(kf) > 2 {
 			switch kf[2] {
 			case "skip":
-				p += " @skip(if: $hide)"
+				dir = " @skip(if: $hide)"
 			case "incl":
-				p += " @include(if: $hide)"
+				dir = " @include(if: $hide)"
 			}
+		}
+		form := ""
+		if len(kf) > 3 {
+			form = kf[3]
+		}
+		switch form {
+		case "inline":
+			p = "..." + dir + " { " + p + " }"
+		case "spread":
+			frags += " fragment F_" + kf[0] + " on Ev { " + p + " }"
+			p = "...F_" + kf[0] + dir
+		default:
+			p += dir
 		}
 		parts = append(parts, p)
 	}
-	return strings.Join(parts, " ")
+	return strings.Join(parts, " "), frags
 }
 
 // ------------------------------------------------------------------- world
@@ -283,7 +299,7 @@ func newWorld(u *Universe) *world {
 }
 
 func (w *world) subscribe(s int) map[string]interface{} {
-	sel := w.u.selText(w.u.Pool[s-1].Sel)
+	sel, frags := w.u.selText(w.u.Pool[s-1].Sel)
 	hide := w.u.Pool[s-1].Hide
 	usesHide := strings.Contains(sel, "$hide")
 	if w.shared {
@@ -297,7 +313,7 @@ func (w *world) subscribe(s int) map[string]interface{} {
 			if usesHide {
 				decl += ", $hide: Boolean"
 			}
-			if exe, err = w.root.ParseExecutableString(fmt.Sprintf("subscription(%s) { watch(sub: $s) { %s } }", decl, sel)); err != nil {
+			if exe, err = w.root.ParseExecutableString(fmt.Sprintf("subscription(%s) { watch(sub: $s) { %s } }%s", decl, sel, frags)); err != nil {
 				w.mu.Unlock()
 				return map[string]interface{}{"errors": ggql.FormErrorsResult(err)}
 			}
@@ -316,11 +332,11 @@ func (w *world) subscribe(s int) map[string]interface{} {
 	// the subscriber's variable comes with the request or is defaulted by it
 	switch {
 	case !usesHide:
-		return w.root.ResolveString(fmt.Sprintf("subscription { watch(sub: %d) { %s } }", s, sel), "", nil)
+		return w.root.ResolveString(fmt.Sprintf("subscription { watch(sub: %d) { %s } }%s", s, sel, frags), "", nil)
 	case s%2 == 1:
-		return w.root.ResolveString(fmt.Sprintf("subscription($hide: Boolean) { watch(sub: %d) { %s } }", s, sel), "", map[string]interface{}{"hide": hide})
+		return w.root.ResolveString(fmt.Sprintf("subscription($hide: Boolean) { watch(sub: %d) { %s } }%s", s, sel, frags), "", map[string]interface{}{"hide": hide})
 	}
-	return w.root.ResolveString(fmt.Sprintf("subscription($hide: Boolean = %v) { watch(sub: %d) { %s } }", hide, s, sel), "", nil)
+	return w.root.ResolveString(fmt.Sprintf("subscription($hide: Boolean = %v) { watch(sub: %d) { %s } }%s", hide, s, sel, frags), "", nil)
 }
 
 func (w *world) reg() []int {
